@@ -12,3 +12,41 @@ package buffnetlink
 //@   serves C20 C07
 //@   after call GetFamily:
 //@     assume [A-GENLFAMILY] ret1 == nil ==> ret0 != nil && len(ret0.Groups) > 0
+
+// Notifications from the kernel (C10, C13).  A-KMSG (assumed): a multicast message from gtp5g is well-formed netlink
+// (body at least a generic-netlink header long, attribute lengths within the message, fixed-size attributes present
+// in full).  What is proved: the buffered packet goes out with the SEID, PDR id and action of the same message;
+// every usage report is converted field by field and its reporting-trigger cause is mapped by
+// UsageReportTrigger.SetReportingTrigger (C19); reports are grouped by the SEID they carry.
+//@ func (s *Server) ServeMsg(msg *nl.Msg) (ok bool)
+//@   requires s != nil && msg != nil && s.handler != nil && len(msg.Body) >= 4
+//@   modifies *
+//@   serves C10 C13 C07
+//@   after call DecodeAttrHdr:
+//@     assume [A-KMSG] ret2 == nil ==> 0 <= ret1 && ret1 <= len(b)
+//@   at call decodbuffer:
+//@     assert [body] arg0 == b[n:]
+//@   at call NotifySessReport#1:
+//@     assert [dld]  arg0.SEID == seid && len(arg0.Reports) == 1 && typeis(arg0.Reports[0], report.DLDReport) &&
+//@                   arg0.Reports[0].(report.DLDReport).PDRID == pdrid && arg0.Reports[0].(report.DLDReport).Action == action &&
+//@                   arg0.Reports[0].(report.DLDReport).BufPkt == pkt
+//@   at call SetReportingTrigger:
+//@     assert [cause] arg0 == r.USARTrigger
+//@   at call append#1:
+//@     assert [conv] len(arg1) == 1 && arg0 == usars[r.SEID] && arg1[0].URRID == r.URRID && arg1[0].QueryUrrRef == r.QueryUrrRef &&
+//@                   arg1[0].StartTime == r.StartTime && arg1[0].EndTime == r.EndTime &&
+//@                   arg1[0].VolumMeasure.TotalVolume == r.VolMeasurement.TotalVolume && arg1[0].VolumMeasure.UplinkVolume == r.VolMeasurement.UplinkVolume &&
+//@                   arg1[0].VolumMeasure.DownlinkVolume == r.VolMeasurement.DownlinkVolume && arg1[0].VolumMeasure.TotalPktNum == r.VolMeasurement.TotalPktNum &&
+//@                   arg1[0].VolumMeasure.UplinkPktNum == r.VolMeasurement.UplinkPktNum && arg1[0].VolumMeasure.DownlinkPktNum == r.VolMeasurement.DownlinkPktNum
+//@   at call NotifySessReport#2:
+//@     assert [usa]  arg0.SEID == seid
+
+//@ func decodbuffer(b []byte) (seid uint64, pdrid uint16, action uint16, pkt []byte, err error)
+//@   modifies nothing
+//@   serves C13 C07
+//@   loop for(len(b) > 0):
+//@     modifies nothing
+//@   after call DecodeAttrHdr:
+//@     assume [A-KMSG] ret2 == nil ==> 0 <= ret1 && ret1 + 8 <= len(arg0) && ret1 <= int(ret0.Len) && (int(ret0.Len) + 3) &^ 3 <= len(arg0) && native != nil
+//@   after call Align:
+//@     assume [A-ALIGN] ret0 == (int(recv) + 3) &^ 3
